@@ -18,6 +18,7 @@ pub enum PredSrc {
 #[derive(Debug, Clone)]
 enum CItem {
     Lit(char),
+    Dot,
     Range(char, char),
     Named(Arc<BitSet>, bool),
     Bracket(Box<CBracket>),
@@ -45,6 +46,7 @@ enum CPred {
 
 fn c_item(it: &ClassItem) -> CItem {
     match it {
+        ClassItem::Lit('.', crate::rx::LitForm::BareDot) => CItem::Dot,
         ClassItem::Lit(c, _) => CItem::Lit(*c),
         ClassItem::Range(a, b) => CItem::Range(*a, *b),
         ClassItem::Named(n, neg) => CItem::Named(sets::base_set(n), *neg),
@@ -66,6 +68,7 @@ fn c_bracket(b: &Bracket) -> CBracket {
 fn m_item(it: &CItem, c: char) -> bool {
     match it {
         CItem::Lit(l) => *l == c,
+        CItem::Dot => sets::dot_matches(c),
         CItem::Range(a, b) => *a <= c && c <= *b,
         CItem::Named(s, neg) => s.get(c) != *neg,
         CItem::Bracket(b) => m_bracket(b, c),
